@@ -199,10 +199,12 @@ pub fn decode_conc_case(d: &[u8]) -> props::shm::ConcCase {
             Life {
                 ops: vec![WOp::Publish(pubs)],
                 stop_at,
+                stall: false,
             },
             Life {
                 ops: vec![WOp::Publish(1)],
                 stop_at: None,
+                stall: false,
             },
         ],
         readers,
